@@ -761,12 +761,187 @@ func mmSortedKeys(m map[string]int) []string {
 	return ks
 }
 
+
+// ---------------------------------------------------------------- statement-level translation of VerifyPages (coq/FmtMACHO/VpLang.v)
+
+// vpTr translates a Go statement list into the constructor syntax of FmtMACHO.VpLang.vstmt.  Expressions go through the shared
+// expression translator with leaves naming VARIABLES (remaining, pageSize, len(page), ...), so every operator, constant and operand of
+// a condition or assignment is whatever the source says now.  A statement shape the translator does not know is a broken tie.
+type vpTr struct {
+	o   *out
+	p   *pkgInfo
+	fs  funcSpec
+	err error
+}
+
+func (v *vpTr) fail(format string, a ...interface{}) string {
+	if v.err == nil {
+		v.err = fmt.Errorf(format, a...)
+	}
+	return "BROKEN"
+}
+
+func (v *vpTr) expr(e ast.Expr) string {
+	t := v.o.newTr(v.p, v.fs)
+	s := t.expr(e)
+	if t.err != nil && v.err == nil {
+		v.err = t.err
+	}
+	return "(fun c s => " + s + ")"
+}
+
+// the class of a new error, by its message: the same table as harness/p/fmtmacho classify
+func vpErrClass(msg string) int {
+	has := func(x string) bool { return strings.Contains(msg, x) }
+	switch {
+	case has("no valid code dir"), has("code directory not found"):
+		return 7
+	case has("digest mismatch"):
+		return 6
+	case has("unsupported page size"), has("not enough hash slots"), has("expected 1 hash slot"), has("expected code size"), has("invalid code limit"):
+		return 10
+	}
+	return 9
+}
+
+func (v *vpTr) block(list []ast.Stmt) string {
+	var items []string
+	for _, s := range list {
+		items = append(items, v.stmt(s)...)
+	}
+	return "[" + strings.Join(items, ";\n    ") + "]"
+}
+
+func (v *vpTr) stmt(s ast.Stmt) []string {
+	txt := mmNorm(printNode(v.p.fset, s))
+	pr := func(e ast.Expr) string { return mmNorm(printNode(v.p.fset, e)) }
+	switch x := s.(type) {
+	case *ast.AssignStmt:
+		if len(x.Lhs) == 2 && len(x.Rhs) == 1 {
+			l0, l1, r := pr(x.Lhs[0]), pr(x.Lhs[1]), pr(x.Rhs[0])
+			switch {
+			case l0 == "n" && l1 == "err" && r == "io.Copy(h, r)" && x.Tok == token.DEFINE:
+				return []string{"SCopyAll"}
+			case l0 == "_" && l1 == "err" && r == "io.ReadFull(r, page)":
+				return []string{"SReadFull"}
+			}
+			return []string{v.fail("unsupported statement %s", txt)}
+		}
+		if len(x.Lhs) != 1 || len(x.Rhs) != 1 {
+			return []string{v.fail("unsupported statement %s", txt)}
+		}
+		lhs, rhs := pr(x.Lhs[0]), pr(x.Rhs[0])
+		arith := func(old string) string {
+			e := v.expr(x.Rhs[0])
+			inner := strings.TrimSuffix(strings.TrimPrefix(e, "(fun c s => "), ")")
+			switch x.Tok {
+			case token.ASSIGN, token.DEFINE:
+				return "(fun c s => mm_s64 " + inner + ")"
+			case token.SUB_ASSIGN:
+				return "(fun c s => mm_s64 (" + old + " - " + inner + "))"
+			case token.ADD_ASSIGN:
+				return "(fun c s => mm_s64 (" + old + " + " + inner + "))"
+			}
+			return v.fail("unsupported assignment operator in %s", txt)
+		}
+		switch lhs {
+		case "dir":
+			if rhs == "s.bestDir()" && x.Tok == token.DEFINE {
+				return []string{"SBestDir"}
+			}
+		case "remaining":
+			return []string{"SSetRemaining " + arith("(s_remaining s)")}
+		case "pageSize":
+			return []string{"SSetPageSize " + arith("(s_page_size s)")}
+		case "page":
+			if ce, ok := x.Rhs[0].(*ast.CallExpr); ok && pr(ce.Fun) == "make" && len(ce.Args) == 2 && pr(ce.Args[0]) == "[]byte" {
+				return []string{"SMakePage " + v.expr(ce.Args[1])}
+			}
+			if se, ok := x.Rhs[0].(*ast.SliceExpr); ok && pr(se.X) == "page" && se.Low == nil && se.High != nil && se.Max == nil && x.Tok == token.ASSIGN {
+				return []string{"SReslice " + v.expr(se.High)}
+			}
+		case "h":
+			if rhs == "dir.HashFunc.New()" && x.Tok == token.DEFINE {
+				return []string{"SNewHash"}
+			}
+		case "computed":
+			if rhs == "h.Sum(nil)" && x.Tok == token.DEFINE {
+				return []string{"SHashSum"}
+			}
+		}
+		return []string{v.fail("unsupported statement %s", txt)}
+	case *ast.ExprStmt:
+		switch txt {
+		case "h.Reset()":
+			return []string{"SHashReset"}
+		case "h.Write(page)":
+			return []string{"SHashWritePage"}
+		}
+		return []string{v.fail("unsupported statement %s", txt)}
+	case *ast.IfStmt:
+		var items []string
+		if x.Init != nil {
+			items = append(items, v.stmt(x.Init)...)
+		}
+		els := "[]"
+		switch e := x.Else.(type) {
+		case nil:
+		case *ast.BlockStmt:
+			els = v.block(e.List)
+		case *ast.IfStmt:
+			els = "[" + strings.Join(v.stmt(e), ";\n    ") + "]"
+		default:
+			els = v.fail("unsupported else in %s", txt)
+		}
+		return append(items, "SIf "+v.expr(x.Cond)+" "+v.block(x.Body.List)+" "+els)
+	case *ast.ReturnStmt:
+		if len(x.Results) != 1 {
+			return []string{v.fail("unsupported return %s", txt)}
+		}
+		switch r := pr(x.Results[0]); r {
+		case "nil":
+			return []string{"SRet 0"}
+		case "err":
+			return []string{"SRetErr"}
+		}
+		if ce, ok := x.Results[0].(*ast.CallExpr); ok && (pr(ce.Fun) == "errors.New" || pr(ce.Fun) == "fmt.Errorf") && len(ce.Args) >= 1 {
+			if bl, ok := ce.Args[0].(*ast.BasicLit); ok && bl.Kind == token.STRING {
+				return []string{fmt.Sprintf("SRet %d", vpErrClass(bl.Value))}
+			}
+		}
+		return []string{v.fail("unsupported return %s", txt)}
+	case *ast.RangeStmt:
+		if pr(x.X) == "dir.CodeHashes" && x.Tok == token.DEFINE && x.Key != nil && x.Value != nil && pr(x.Value) == "expected" && (pr(x.Key) == "i" || pr(x.Key) == "_") {
+			return []string{"SRange " + v.block(x.Body.List)}
+		}
+		return []string{v.fail("unsupported range statement over %s", pr(x.X))}
+	}
+	return []string{v.fail("unsupported statement %s", txt)}
+}
+
+// mmProg emits Definition coqName : list vstmt := <the translated body of the function>.
+func (o *out) mmProg(fs funcSpec) {
+	p, fd := findFunc(fs.dir, fs.recv, fs.name)
+	if fd == nil {
+		o.brokenDef(fs.coqName, "function "+fs.dir+":"+fs.recv+"."+fs.name+" not found")
+		return
+	}
+	v := &vpTr{o: o, p: p, fs: fs}
+	body := v.block(fd.Body.List)
+	if v.err != nil {
+		o.brokenDef(fs.coqName, v.err.Error())
+		return
+	}
+	o.f("Definition %s : list vstmt :=\n  %s.\n(* from %s:%s.%s, statement by statement *)\n", fs.coqName, body, fs.dir, fs.recv, fs.name)
+}
+
 // ---------------------------------------------------------------- the generator
 
 func init() {
 	generators["FmtMACHO_gen"] = func(o *out) {
 		const cs = "lib/fruit/csblob"
 		const ms = "lib/fruit/machos"
+		o.f("From Relic Require Import FmtMACHO.VpLang.\n\n")
 		o.f("Definition mm_wrap32 (x : Z) : Z := x mod 4294967296.\n")
 		o.f("Definition mm_wrap64 (x : Z) : Z := x mod 18446744073709551616.\n")
 		o.f("Definition mm_s64 (x : Z) : Z := (x + 9223372036854775808) mod 18446744073709551616 - 9223372036854775808. (* int64(uint64) *)\n")
@@ -1042,22 +1217,18 @@ func init() {
 			return found
 		})
 		o.callOrder(cs, "", "Verify", "vfy_order", []string{"parseSignature", "Verify", "checkCDHashes", "checkPlistHashes", "VerifyOptionalTimestamp"})
-		bdL := map[string]string{"dir == nil": "none", "dir2.Header.HashType": "t2", "dir.Header.HashType": "t1", "dir.Header.CodeLimit64": "limit64"}
-		o.condOf(funcSpec{dir: cs, recv: "SigBlob", name: "bestDir", coqName: "vfy_better_dir", params: "(none : bool) (t2 t1 : Z)", retType: "bool", leaves: bdL, types: map[string]string{"dir == nil": "bool"}}, "if:dir == nil ||")
-		o.condOf(funcSpec{dir: cs, recv: "SigBlob", name: "CodeSize", coqName: "vfy_uses_limit64", params: "(limit64 : Z)", retType: "bool", leaves: bdL}, "if:dir.Header.CodeLimit64")
-		vpL := map[string]string{"dir.Header.PageSizeLog2": "page_log2", "len(dir.CodeHashes)": "n_hashes", "n": "n", "remaining": "remaining", "pageSize": "page_size", "len(page)": "page_len",
-			"maxPageSizeLog2": "cs_max_page_log2"}
-		vp := func(coq, params, ret string) funcSpec {
-			return funcSpec{dir: cs, recv: "SigBlob", name: "VerifyPages", coqName: coq, params: params, retType: ret, leaves: vpL}
-		}
-		o.condOf(vp("vp_single_page", "(page_log2 : Z)", "bool"), "if:dir.Header.PageSizeLog2")
-		o.condOf(vp("vp_single_count_bad", "(n_hashes : Z)", "bool"), "if:len(dir.CodeHashes)")
-		o.condOf(vp("vp_single_size_bad", "(n remaining : Z)", "bool"), "if:n != remaining")
-		o.condOf(vp("vp_page_too_large", "(page_log2 : Z)", "bool"), "if:maxPageSizeLog2")
-		o.mmAssign(vp("vp_page_size", "(page_log2 : Z)", "Z"), "pageSize", 0)
-		o.condOf(vp("vp_exhausted", "(remaining : Z)", "bool"), "if:remaining <= 0")
-		o.condOf(vp("vp_short_page", "(remaining page_size : Z)", "bool"), "if:remaining < pageSize")
-		o.mmAssign(vp("vp_remaining_step", "(old page_len : Z)", "Z"), "remaining", 1)
+		bdL := map[string]string{"dir == nil": "none", "dir2.Header.HashType": "t2", "dir.Header.HashType": "t1"}
+		o.condOf(funcSpec{dir: cs, recv: "SigBlob", name: "bestDir", coqName: "vfy_better_dir", params: "(none : bool) (t2 t1 : Z)", retType: "bool", leaves: bdL, types: map[string]string{"dir == nil": "bool"}}, "if:dir2.Header.HashType")
+		// CodeSize: the whole (loop-free) function
+		o.decisionFunc(funcSpec{dir: cs, recv: "SigBlob", name: "CodeSize", coqName: "cs_code_size_of", params: "(none : bool) (limit64 limit32 : Z)", retType: "Z",
+			leaves: map[string]string{"s.bestDir()": "tt", "dir == nil": "none", "dir.Header.CodeLimit64": "limit64", "dir.Header.CodeLimit": "limit32"}, types: map[string]string{"dir == nil": "bool"}})
+		// VerifyPages: the whole body as a program of FmtMACHO.VpLang
+		o.mmProg(funcSpec{dir: cs, recv: "SigBlob", name: "VerifyPages", coqName: "vp_prog",
+			leaves: map[string]string{"dir == nil": "(i_none c)", "dir.Header.PageSizeLog2": "(i_log2 c)", "len(dir.CodeHashes)": "(zlen (i_hashes c))", "dir.CodeHashes[0]": "(hd [] (i_hashes c))",
+				"s.CodeSize()": "(i_code_size c)", "remaining": "(s_remaining s)", "pageSize": "(s_page_size s)", "len(page)": "(s_plen s)", "n": "(s_n s)", "i": "(s_i s)",
+				"err != nil": "(s_err s)", "err == nil": "(negb (s_err s))", "computed": "(s_computed s)", "expected": "(s_expected s)", "maxPageSizeLog2": "cs_max_page_log2"},
+			types: map[string]string{"dir == nil": "bool", "err != nil": "bool", "err == nil": "bool", "computed": "bytes", "expected": "bytes", "dir.CodeHashes[0]": "bytes"},
+			calls: map[string]string{"hmac.Equal": "bytes_eqb", "bytes.Equal": "bytes_eqb", "int64": "mm_s64"}})
 		cpL := map[string]string{"len(parsed.CDHashes)": "n_plist", "len(computedList)": "n_dirs"}
 		o.condOf(funcSpec{dir: cs, name: "checkPlistHashes", coqName: "vfy_plist_count_bad", params: "(n_plist n_dirs : Z)", retType: "bool", leaves: cpL}, "if:len(parsed.CDHashes)")
 		o.mmEmit(funcSpec{dir: cs, name: "checkPlistHashes", coqName: "vfy_plist_trunc", params: "", retType: "Z"}, "computed[...][:20]", func(p *pkgInfo, fd *ast.FuncDecl) ast.Expr {
